@@ -44,7 +44,18 @@ TEXT["C04"] = dict(
   note="Crash granularity is the database commit on the memdb stub (atomic, prefix-durable store assumed - that assumption is property C05's subject, decided by storesim on real ffldb). Known finding KF-C04-1 (stored-but-unconnected best block not activated after reopen) is reported as KNOWN-FINDING and additionally checked to converge after one more block.",
   ref="DESIGN.md §5 C04")
 
-READY = ["C01", "C02", "C03", "C04", "C19"]
+TEXT["C09"] = dict(
+  technique="deterministic simulation: generated header/block histories on synthetic difficulty parameter sets under a seeded advancing and skewed clock; required bits, MTP, timestamp rules, BIP94, min-difficulty, work-based selection and subsidy compared with an independent arithmetic model",
+  level="History x configuration x clock facet of C09: every header/block accept/reject, CalcNextRequiredDifficulty for several candidate timestamps after every reached tip (incl. retarget boundaries, clamps, min-difficulty walk-back, BIP94 first-block target, no-retarget), BestSnapshot.MedianTime, CheckProofOfWork, CompactToBig/BigToCompact/CalcWork/HashToBig on every value occurring, CalcBlockSubsidy on every reached height and at halvings 63/64/65/100, and chain selection by cumulative work computed independently (shorter-but-heavier branches).",
+  note="The every-isolated-compact-value / every-256-bit-target clauses are pure arithmetic over inputs and are not decided (only values occurring in generated histories and mutated headers are reached); mining cost bounds pow limits to 2^249..2^255.",
+  ref="DESIGN.md §5 C09")
+TEXT["C17"] = dict(
+  technique="deterministic simulation: seeded interleavings of header and block deliveries of one generated tree into a real node; block-index, locator and inventory queries compared with naive parent-link walks on the reference tree",
+  level="After seeded events: LocateBlocks/LocateHeaders (empty, genuine, side-chain, unknown, out-of-order locators; every stop-hash class; max), LatestBlockLocator, BlockLocatorFromHash (any branch, unknown), HeightRange, HeightToHashRange, IntervalBlockHashes (side-chain ends, unknown ends, out-of-domain arguments), BestHeader, HeaderHashByHeight, HeaderHeightByHash, IsValidHeader, BestChainHeaderForkHeight equal the naive-walk model; header verdicts (orphan headers refused, header-rule violations refused, valid headers on valid chains accepted) are judged; the final state after headers-then-blocks satisfies the same most-work-valid-chain oracle as blocks-only.",
+  note="Model follows the documented contracts (DESIGN §5 C17); best-header is judged for headers accepted through header delivery within one node instance (a restart re-bases it on the chain tip).",
+  ref="DESIGN.md §5 C17")
+
+READY = ["C01", "C02", "C03", "C04", "C09", "C17", "C19"]
 
 def main():
     verif = os.path.dirname(os.path.abspath(__file__))
